@@ -112,19 +112,33 @@ def engine_harness(
     cfg_fn: Optional[Callable[[Any], Cfg]] = None,
     judge_hang: bool = False,
     rev: bool = True,
+    param_orders: bool = False,
 ) -> Callable[[], Any]:
     """Returns make() -> harness(sym)."""
 
     def make() -> Any:
-        spec = spec_factory()
+        spec0 = spec_factory()
         set_pools()
         bk = dict(beh_kw or {})
         if "dur_nodes" not in bk:
-            bk["dur_nodes"] = default_dur_nodes(spec)
+            bk["dur_nodes"] = default_dur_nodes(spec0)
         elif bk["dur_nodes"] == "all":
             bk["dur_nodes"] = None
+        spec_rev = None
+        if param_orders:
+            # the same declarations with every node's parameters declared in reverse order: changes the builder's
+            # traversal order and with it the manager's launch order among nodes of equal depth
+            import copy as _copy
+
+            nodes = [_copy.copy(n) for n in spec0.nodes]
+            for n in nodes:
+                n.params = tuple(reversed(n.params))
+            spec_rev = Spec(spec0.name + "_revparams", nodes, spec0.input, spec0.output, spec0.input_keys, spec0.dur_nodes)
 
         def h(sym: Any) -> Tuple[str, Dict[str, Any]]:
+            spec = spec0
+            if spec_rev is not None and sym.bool("reversed_param_order"):
+                spec = spec_rev
             beh = Behaviour(sym, spec, **bk)
             cfg = cfg_fn(sym) if cfg_fn else Cfg()
             if rev:
